@@ -17,7 +17,7 @@ BadSecond == { Msg(1, << Rep("N"), [k |-> "TSi", sel |-> << >>] >>),
                Msg(1, << Rep("IDr"), [k |-> "CP", cft |-> 1, attrs |-> << >>] >>) }
 GoodAfter == { Msg(1, << Rep("IDi"), Rep("AUTH") >>), Msg(3, << Rep("N") >>), Msg(5, << Rep("SA"), Rep("TSi"), Rep("TSr") >>) }
 
-Parts == {"KE", "ID", "CERT", "AUTH", "NV", "N", "D", "TS", "CP", "SA", "EAPaka", "EAPother", "long", "hdr", "max", "twins", "failok", "edges"} \cup { "pair" \o k : k \in PKindSet }
+Parts == {"KE", "ID", "CERT", "AUTH", "NV", "N", "D", "TS", "CP", "SA", "EAPaka", "EAPother", "long", "hdr", "max", "twins", "failok", "edges", "notifyhdr"} \cup { "pair" \o k : k \in PKindSet }
 PartSet(p) ==
   CASE p = "KE" -> { Msg(1, << x >>) : x \in KEs }
     [] p = "ID" -> { Msg(1, << x >>) : x \in IDs }
@@ -38,6 +38,7 @@ PartSet(p) ==
     [] p = "twins" -> UNION { TwinSet(S) : S \in { KEs, IDs, CERTs, AUTHs, NVs, Ns, TSs, CPs } }
                       \cup { Msg(1, << q[1], q[2] >>) : q \in { r \in SAs \X SAs : r[1] # r[2] } }
                       \cup { Msg(1, << [k |-> "EAP", eap |-> q[1]], [k |-> "EAP", eap |-> q[2]] >>) : q \in { r \in EapTwins \X EapTwins : r[1] # r[2] } }
+    [] p = "notifyhdr" -> NotifyHdrMsgs
     [] p = "edges" -> { Msg(3, << x >>) : x \in EdgeSingles }
     [] p = "failok" -> { [bad |-> b, good |-> g] : b \in BadSecond, g \in GoodAfter }
     [] OTHER -> LET a == CHOOSE k \in PKindSet : p = "pair" \o k IN { Msg(1, << Rep(a), Rep(b) >>) : b \in PKindSet }
